@@ -19,6 +19,10 @@ type PropDef struct {
 	MinDistinctQuick, MinDistinctThorough uint64
 	// Technique is a short name for the evidence file.
 	Technique string
+	// FuzzTarget, if set, names a native fuzz target (harness/fuzz) run in the thorough tier
+	// for FuzzExecs executions as a second engine over the same oracle functions.
+	FuzzTarget string
+	FuzzExecs  uint64
 }
 
 var registry = map[string]*PropDef{}
